@@ -36,6 +36,11 @@ def cases(tier):
         for pi in (True, False):
             cs.append(F.pair(ch, end=end, pull_initial=pi))
             cs.append(F.pair(ch, end=end, pull_initial=pi, order=("B", "A"), starts=(0, 1)))
+    # a source that starts later than its consumer, behind delay adapters (requests before the source's start time are clamped to it)
+    for ch in ([["F", 1]], [["F", 2.5]], [["F", 0.5], ["F", 1.5]], [["P", 1, 0]], [["P", 2, 0.5]], [["S", 2], ["F", 1]]):
+        for starts in ((2, 0), (1, 0), (3, 0)):
+            for order in (("A", "B"), ("B", "A")):
+                cs.append(F.pair(ch, end=end, starts=starts, order=order))
     # several delay adapters on one link, acyclic: the producer must not be advanced further than needed
     for total in ([1, 2, 3] if q else [1, 1.5, 2, 2.5, 3, 4]):
         for mat in splits(total):
